@@ -6,7 +6,7 @@ From HV Require Import Model.CodecSuper Model.CodecType Model.FileImage Proofs.F
   Proofs.FileImageProd Proofs.FileImageMain.
 From HV Require Import Model.SliceRefine Proofs.SliceRefineBytes Proofs.SliceRefineArith Proofs.SliceRefineValidate
   Proofs.SliceRefineMain Proofs.SliceRefineFile Proofs.SliceRefineTop.
-From HV Require Proofs.HyperslabBase Proofs.HyperslabValidate Proofs.SliceRefineSliceH Proofs.SliceRefineFit.
+From HV Require Proofs.HyperslabBase Proofs.HyperslabValidate Proofs.HyperslabRefuted Proofs.SliceRefineSliceH Proofs.SliceRefineFit.
 Module SH := HV.Proofs.SliceRefineSliceH.
 
 Lemma wrap64_0 : wrap64 0 = 0.
@@ -103,3 +103,29 @@ Proof.
     exfalso. apply SH.validate_count_bound in E. cbn in E. lia.
 Qed.
 End Slice.
+
+(* ------------------------------------------------------------------ the hypotheses are satisfiable *)
+Lemma forallb_u64 l : forallb (fun x => x <=? Hs.u64max) l = true -> Forall Hs.u64 l.
+Proof. intros H. apply Forall_forall. intros x Hx. rewrite forallb_forall in H. apply N.leb_le. now apply H. Qed.
+
+Definition wit_sel : selection := {| s_start := [0; 1]; s_count := [2; 2]; s_stride := Some [2; 3]; s_block := Some [2; 2] |}.
+Definition wit_data : bytes := flat_map (fun i => [i; 0; 0; 0]) (Hs.nrange 24).
+
+(* int32 [4,6] = 0..23, ReadHyperslab(start [0,1], count [2,2], stride [2,3], block [2,2]); ReadSlice([1,2], [2,3]) *)
+Example file_slice_witness :
+  link_name_ok [100] = true /\ basic_dtype 0 4 8 = true /\ dims_ok [4; 6] = true /\
+  blen wit_data = product [4; 6] * 4 /\ blen wit_data < 4294967296 /\
+  HyperslabValidate.u64_sel (hsel_of wit_sel) (length [4; 6]) /\ Hs.valid (hsel_of wit_sel) [4; 6] /\
+  Hs.prodN (s_count wit_sel) <= Hs.max_hyperslab_elements /\
+  Forall Hs.u64 [1; 2] /\ Forall Hs.u64 [2; 3] /\ Hs.slice_valid [1; 2] [2; 3] [4; 6] /\ Hs.prodN [2; 3] <= Hs.max_hyperslab_elements.
+Proof.
+  split; [vm_compute; reflexivity|]. split; [vm_compute; reflexivity|]. split; [vm_compute; reflexivity|].
+  split; [vm_compute; reflexivity|]. split; [vm_compute; reflexivity|].
+  split.
+  { unfold HyperslabValidate.u64_sel. split; [|split; [|split]]; apply forallb_u64; vm_compute; reflexivity. }
+  split; [apply HyperslabRefuted.validb_spec; vm_compute; reflexivity|].
+  split; [vm_compute; discriminate|].
+  split; [apply forallb_u64; vm_compute; reflexivity|]. split; [apply forallb_u64; vm_compute; reflexivity|].
+  split; [|vm_compute; discriminate].
+  apply (HyperslabValidate.slice_validate_ok [1; 2] [2; 3] [4; 6]); [apply forallb_u64|]; vm_compute; reflexivity.
+Qed.
